@@ -125,12 +125,39 @@ def uses(body, defaults=()):
     return found
 
 
+def _const_truth(v):
+    t = v["t"]
+    return {"int": lambda: v["n"] != 0, "bool": lambda: v["b"], "none": lambda: False,
+            "str": lambda: seg_text(v["s"]) != ""}[t]()
+
+
 def collect_blocks(body):
+    """The blocks of a template, each with the lexical autoescape mode of the place where it is written
+    (amode: "default" = the template's own setting, "on" / "off" inside {% autoescape <constant> %},
+    "vol" inside {% autoescape <expression> %})."""
     out = {}
-    for n in walk(body):
-        if n.get("k") == "block":
-            out[n["name"]] = {"body": n["body"], "scoped": n["scoped"], "required": n["required"],
-                              "pre": n.get("pre", [])}
+
+    def go(node, mode):
+        if isinstance(node, dict):
+            k = node.get("k")
+            if k == "autoescape":
+                go(node["e"], mode)
+                if mode == "vol" or node["e"]["k"] != "const":
+                    inner = "vol"
+                else:
+                    inner = "on" if _const_truth(node["e"]["v"]) else "off"
+                go(node["body"], inner)
+                return
+            if k == "block":
+                out[node["name"]] = {"body": node["body"], "scoped": node["scoped"], "required": node["required"],
+                                     "pre": node.get("pre", []), "amode": mode}
+            for v in node.values():
+                go(v, mode)
+        elif isinstance(node, (list, tuple)):
+            for x in node:
+                go(x, mode)
+
+    go(body, "default")
     return out
 
 
@@ -216,7 +243,9 @@ def ux(e, names=None):
     if k == "getitem": return f"{P(e['a'])}[{ux(e['i'], names)}]"
     if k == "slice": return f"{P(e['a'])}[{ux(e['lo'], names) if 'lo' in e else ''}:{ux(e['hi'], names) if 'hi' in e else ''}]"
     if k == "call":
-        args = [ux(a, names) for a in e["args"]] + [f"{n}={ux(v, names)}" for n, v in zip(e["kwnames"], e["kwvals"])]
+        # keyword names that address macro parameters are renamed with the parameters
+        KW = lambda n: R(n) if n in ("p0", "p1") else n
+        args = [ux(a, names) for a in e["args"]] + [f"{KW(n)}={ux(v, names)}" for n, v in zip(e["kwnames"], e["kwvals"])]
         return f"{P(e['f'])}({', '.join(args)})"
     if k == "filter":
         args = [ux(a, names) for a in e["args"]] + [f"{n}={ux(v, names)}" for n, v in zip(e.get("kwnames", []), e.get("kwvals", []))]
@@ -277,7 +306,7 @@ def us(stmts, names=None, syn=None):
         elif k == "callblock":
             nd = len(st["defaults"]); np_ = len(st["params"])
             ps = [R(p) if i < np_ - nd else f"{R(p)}={X(st['defaults'][i - (np_ - nd)])}" for i, p in enumerate(st["params"])]
-            args = [X(a) for a in st["args"]] + [f"{n}={X(v)}" for n, v in zip(st["kwnames"], st["kwvals"])]
+            args = [X(a) for a in st["args"]] + [f"{R(n) if n in ('p0', 'p1') else n}={X(v)}" for n, v in zip(st["kwnames"], st["kwvals"])]
             out.append(T(f"call{'(' + ', '.join(ps) + ')' if ps else ''} {X(st['f'])}({', '.join(args)})"))
             out.append(us(st["body"], names, syn)); out.append(T("endcall"))
         elif k == "filterblock":
@@ -591,7 +620,7 @@ def _level(stmts, sym):
         elif k == "filterblock":
             for a in st.get("args", []): _expr_loads(a, sym)
         elif k == "autoescape":
-            _expr_loads(st["e"], sym); _level(st["body"], sym)
+            _expr_loads(st["e"], sym)       # the body is a scope of its own (the extension wraps it in a Scope node)
         elif k in ("extends", "include", "do"): _expr_loads(st["e"], sym)
         elif k == "import":
             _expr_loads(st["e"], sym); sym.store(st["target"])
@@ -621,7 +650,10 @@ def _nested(stmts, sym):
             for b in st["bodies"]: _nested(b, sym)
             if "else" in st: _nested(st["else"], sym)
         elif k == "autoescape":
-            _nested(st["body"], sym)
+            b = _Sym(sym)
+            _level(st["body"], b)
+            st["pre"] = b.undef_names()
+            _nested(st["body"], b)
         elif k == "for":
             body = _Sym(sym)
             _target_store(st["target"], body, as_param=True)
